@@ -43,6 +43,7 @@ GEN_ALPHA = {
     "b1": [False, True],
     "u1": [0, 200, 255],
     "td": [None, "1", "3", "-2"],
+    "obj": [None, 1, 2, 3],
     "str": [None, "a", "b", "ab"],
     "D": [None, "1970-01-01", "2020-02-29", "1969-12-31"],
     "us": [None, "1970-01-01T00:00:00", "2020-02-29T23:59:59.999999"],
@@ -69,8 +70,11 @@ def helper_calls(family, kind):
     else:
         for h in ("count", "count_unique", "first", "last", "mode"):
             calls += [(h, {"drop_na": d}) for d in DROP]
-        for h in ("min", "max"):
-            calls += [(h, {"drop_na": d}) for d in DROP]
+        if kind != "obj":
+            # (objects are not ordered among themselves as far as NumPy is concerned: None next to 1 cannot be compared,
+            #  so min/max of an object vector are outside "each dtype a helper accepts")
+            for h in ("min", "max"):
+                calls += [(h, {"drop_na": d}) for d in DROP]
         for index in range(-3, 4):
             calls += [("nth", {"index": index, "drop_na": d}) for d in DROP]
     return calls
